@@ -191,7 +191,7 @@ func ruleOffsetsExact(c *Ctx) {
 		isT := func(e ast.Expr) bool {
 			t := false
 			walkAll(e, func(m ast.Node) bool {
-				if id, ok := m.(*ast.Ident); ok && tainted[info.ObjectOf(id)] {
+				if id, ok := m.(*ast.Ident); ok && tainted[objOf(info, id)] {
 					t = true
 				}
 				return !t
@@ -293,7 +293,7 @@ func ruleOffsetsExact(c *Ctx) {
 				for i, a := range x.Args {
 					if i < sig.Params().Len() && isT(a) {
 						if b, ok := sig.Params().At(i).Type().Underlying().(*types.Basic); ok && b.Info()&types.IsInteger != 0 {
-							sub[paramObj(callee, i)] = true
+							sub[paramObjC(callee, i)] = true
 						}
 					}
 				}
@@ -314,7 +314,7 @@ func ruleOffsetsExact(c *Ctx) {
 		t := map[types.Object]bool{}
 		for i := 0; i < sig.Params().Len(); i++ {
 			if b, ok := sig.Params().At(i).Type().Underlying().(*types.Basic); ok && b.Info()&types.IsInteger != 0 {
-				if o := paramObj(fn, i); o != nil && (i == 0 || i == 1) { // offset, record length
+				if o := paramObjC(fn, i); o != nil && (i == 0 || i == 1) { // offset, record length
 					t[o] = true
 				}
 			}
